@@ -161,7 +161,11 @@ TEXT = {'C11': {'technique': 'Lean 4 proof by mutual structural induction over t
                   'calls that matter in every non-operator arm of type_check_rec and in the binder arms of unify (which child is checked when, what is unified '
                   'with what, pushes and pops of the two contexts, the arguments of open/unsigned_shift) are regenerated from the sources on every run; '
                   'C18_contexts_balanced_tie decides that pushes and pops are LIFO and paired in every arm, C18_checker_event_traces_tie that the sequences '
-                  'are the ones the model performs.',
+                  "are the ones the model performs. **For gram's OWN checker model (Lemmas/CtxWrapS.lean): checking `closeParams ps t` with inferS equals, as "
+                  'a state-passing computation (values, diagnostics, store, out-of-fuel, panic), checking each domain in turn, pushing, checking `t`, popping, '
+                  're-wrapping (C18_params_wrap_S, with C18_pi_wrap_S and C18_let1_wrap_S for the other binders); hence, when the domains are accepted, the '
+                  'closed function is accepted iff the open body is accepted in the pushed state, types related by the iterated Π, same store and diagnostics, '
+                  "and the caller's contexts are restored (C18_params_verdict_S, C18_params_accept_iff_S, C18_params_closed_run_S).**",
          'note': 'Trusted: Lean kernel, standard axioms, harness/driver.'},
  'C13': {'technique': "Lean 4 proof that sorting makes the visiting order invariant under any permutation of a hash container's elements, plus `decide` that "
                       'every hash-iteration site extracted from the sources is a sorted one; repeated launches of the real binary with byte comparison',
@@ -348,27 +352,35 @@ TEXT = {'C11': {'technique': 'Lean 4 proof by mutual structural induction over t
          'note': 'Trusted: Lean kernel, standard axioms, the rewrite implementations in harness/src/prog.rs (each is validated on the unchanged tree).'},
  'C07': {'technique': 'Lean model of the whole packrat parser incl. error recovery and the three re-association passes (zero differences on 1.7M ops); Lean '
                       'proofs: every token consumed, left association of + - and * / chains of any length, parenthesised chains opaque, passes act on disjoint '
-                      "families; Earley recogniser over grammar.y and the generator's own derivation trees as oracles on the implementation",
-         'level': 'PARTIAL (completeness and unambiguity of the grammar are not proved). **Soundness w.r.t. grammar.y is proved**: the productions of '
-                  'grammar.y are regenerated into Lean on every run (Generated/Grammar.lean), and whenever the model parser accepts a token sequence without '
-                  'recording an error, the sequence is derivable from the start symbol in that grammar (C07_parse_sound, C07_accepted_is_sentence: all 36 '
-                  'functions, any length). Also proved for the model: a successful parse consumed all tokens and contains no error node; a right-nested chain '
-                  'of atoms of any length and any mixture of + and - (resp. * and /) is rebuilt left-nested with operators and operands in order; a grouped '
-                  "chain met with a pending accumulator is re-associated on its own (the repaired D8); the sums pass leaves product nodes' shape alone. Two "
-                  'first formulations were refuted by the proof attempt and are kept next to their refutations. Correspondence: op `parse` (resolved term with '
-                  'the source range of every node, or the ranges of the diagnostics in order) on every token sequence up to length 3 (4 thorough) over the '
-                  'full alphabet, every grammar sentence up to 4 (5) tokens, generated programs with token edits, nesting families. Oracles: accepted => '
-                  "sentence of grammar.y with exactly one derivation (Earley); generated sentence => accepted with the generator's tree. **Translator tie "
-                  '(regenerated on every run):** extract/arms.py reads, for each of the 36 packrat functions of parser.rs, the macro invocations and calls in '
-                  'order (try_return!/try_eval!/plain call/consume_token!/expect_token!/node built); for the 8 choice functions, the 9 binary-operator '
-                  'functions and the 5 keyword leaves (22 of 36) the body the model runs IS the interpretation of the extracted row (C07_parser_steps_regular: '
-                  'alternatives in order; left operand nonterminal, operator token, right operand nonterminal, node), the other 14 rows are compared with the '
-                  'rows the model was written from (C07_parser_steps_irregular). **Unambiguity of grammar.y is a theorem (Lemmas/Unambiguous.lean): a token '
-                  'segment has at most one parse tree from any of the 36 nonterminals (C07_unambiguous), by an extension law — two derivations from the same '
-                  'nonterminal and start either end together with equal trees or the token after the shorter one lies in a fixed set that contains no '
-                  'separator of the construct (C07_extension_law; atoms are prefix-free: C07_atom_end_unique); hence the tree the parser returns for an '
-                  'accepted input is THE tree of that token sequence (C07_accepted_unique_tree). Completeness of the parser is proved for the printed '
-                  'sublanguage (C16_parse_printed).**',
+                      "families; Earley recogniser over grammar.y and the generator's own derivation trees as oracles on the implementation; Lean proof of "
+                      'completeness of the packrat parser model w.r.t. the grammar (induction over segment length up the precedence tower, follow sets from an '
+                      'extension law) and of unambiguity of the grammar',
+         'level': '(formerly partial on completeness; now proved for the model) (completeness and unambiguity of the grammar are not proved). **Soundness '
+                  'w.r.t. grammar.y is proved**: the productions of grammar.y are regenerated into Lean on every run (Generated/Grammar.lean), and whenever '
+                  'the model parser accepts a token sequence without recording an error, the sequence is derivable from the start symbol in that grammar '
+                  '(C07_parse_sound, C07_accepted_is_sentence: all 36 functions, any length). Also proved for the model: a successful parse consumed all '
+                  'tokens and contains no error node; a right-nested chain of atoms of any length and any mixture of + and - (resp. * and /) is rebuilt '
+                  'left-nested with operators and operands in order; a grouped chain met with a pending accumulator is re-associated on its own (the repaired '
+                  "D8); the sums pass leaves product nodes' shape alone. Two first formulations were refuted by the proof attempt and are kept next to their "
+                  'refutations. Correspondence: op `parse` (resolved term with the source range of every node, or the ranges of the diagnostics in order) on '
+                  'every token sequence up to length 3 (4 thorough) over the full alphabet, every grammar sentence up to 4 (5) tokens, generated programs with '
+                  'token edits, nesting families. Oracles: accepted => sentence of grammar.y with exactly one derivation (Earley); generated sentence => '
+                  "accepted with the generator's tree. **Translator tie (regenerated on every run):** extract/arms.py reads, for each of the 36 packrat "
+                  'functions of parser.rs, the macro invocations and calls in order (try_return!/try_eval!/plain call/consume_token!/expect_token!/node '
+                  'built); for the 8 choice functions, the 9 binary-operator functions and the 5 keyword leaves (22 of 36) the body the model runs IS the '
+                  'interpretation of the extracted row (C07_parser_steps_regular: alternatives in order; left operand nonterminal, operator token, right '
+                  'operand nonterminal, node), the other 14 rows are compared with the rows the model was written from (C07_parser_steps_irregular). '
+                  '**Unambiguity of grammar.y is a theorem (Lemmas/Unambiguous.lean): a token segment has at most one parse tree from any of the 36 '
+                  'nonterminals (C07_unambiguous), by an extension law — two derivations from the same nonterminal and start either end together with equal '
+                  'trees or the token after the shorter one lies in a fixed set that contains no separator of the construct (C07_extension_law; atoms are '
+                  'prefix-free: C07_atom_end_unique); hence the tree the parser returns for an accepted input is THE tree of that token sequence '
+                  '(C07_accepted_unique_tree). ** **Completeness is a theorem too (Lemmas/ParseComplete*.lean, statements in Props/C07b.lean): '
+                  'C07_parse_complete — every sentence of the grammar (any token array that is a `term` segment with parse tree t) is accepted by the parser '
+                  'model with exactly the tree t, every token consumed, no error recorded — ordered choice and the three error-recovering functions included: '
+                  'on a sentence every alternative tried before the right one fails and recovery never commits wrongly; C07_accepted_iff_sentence — the parser '
+                  "accepts a token array iff it is a sentence, and what it returns is the sentence's unique tree. With soundness (C07_parse_sound), "
+                  "unambiguity (C07_unambiguous) and left association of chains (C07_*_left_assoc_fixed), the property's iff holds for the model for every "
+                  'token sequence; the model is tied to parser.rs by the steps translator and the correspondence suite.**',
          'note': 'Trusted: Lean kernel, standard axioms, harness/driver, the Earley recogniser, the renderer of prog.rs.'},
  'C08': {'technique': 'Lean proof that the model resolver (name->depth map with insert/remove, as the Rust) is sound and complete w.r.t. a binder-stack '
                       'specification toDB, restores its map, and allocates fresh holes; resolver model tied to parser.rs by op `parse` (indices of every '
